@@ -690,3 +690,240 @@ def case_stringio():
         b2.write("y")
         v2 = b2.getvalue()
     return [n, buf.getvalue(), v2]
+
+
+def case_unhashable():
+    out = []
+    d = {"a": 1}
+    for probe in ([], ["a"], {"a": 1}, {1}):
+        for how in ("in", "get", "index", "setitem", "set-add"):
+            try:
+                if how == "in":
+                    out.append(probe in d)
+                elif how == "get":
+                    out.append(d.get(probe))
+                elif how == "index":
+                    out.append(d[probe])
+                elif how == "setitem":
+                    d[probe] = 1
+                    out.append("stored")
+                else:
+                    s = set()
+                    s.add(probe)
+                    out.append("added")
+            except TypeError:
+                out.append("TypeError")
+            except KeyError:
+                out.append("KeyError")
+    out.append([] in [[]])
+    out.append((1, 2) in d)
+    return out
+
+
+def case_mutation_while_iterating():
+    out = []
+    l = [1, 2, 3, 4, 5, 6]
+    seen = []
+    for x in l:
+        seen.append(x)
+        if x % 2 == 1:
+            l.remove(x)
+    out.append((seen, l))
+    l = [1, 2, 3]
+    seen = []
+    for x in l:
+        seen.append(x)
+        if x == 1:
+            l.insert(0, 0)
+        if len(seen) > 6:
+            break
+    out.append((seen, l))
+    l = [1, 2]
+    for x in l:
+        if len(l) < 5:
+            l.append(x + 10)
+    out.append(l)
+    d = {"a": 1, "b": 2}
+    try:
+        for k in d:
+            d[k + "x"] = 0
+        out.append("no error")
+    except RuntimeError:
+        out.append("RuntimeError")
+    d = {"a": 1, "b": 2}
+    for k in list(d):
+        del d[k]
+    out.append(d)
+    d = {"a": 1}
+    for k in d:
+        d[k] = 5
+    out.append(d)
+    return out
+
+
+import re
+from re import IGNORECASE
+
+_PAT = re.compile(r"\{(?P<curly>.*)\}|\"(?P<quote>.*)\"", re.DOTALL)
+_WORD = re.compile(r"(\w+)-(\d+)", IGNORECASE)
+
+
+def case_regex():
+    out = []
+    for v in ("{a\nb}", '"q"', "plain", "{}", '"'):
+        m = _PAT.fullmatch(v)
+        out.append((v, None if m is None else (m.group("curly"), m.group("quote"), m.lastgroup, m.span())))
+    m = _WORD.search("see ABC-12 and x-7")
+    out.append((m.group(0), m.group(1), m[2], m.groups(), m.start(), m.end()))
+    out.append(_WORD.findall("a-1 b-22"))
+    out.append(_WORD.sub(r"\2:\1", "a-1 b-22"))
+    out.append(re.split(r"\s+and\s+", "A and B  and C"))
+    out.append([mm.group(1) for mm in _WORD.finditer("k-1, L-2")])
+    out.append(re.match(r"x", "yx") is None)
+    out.append(bool(re.search("X", "axb", re.I)))
+    out.append(re.escape("a.b*c"))
+    out.append(re.fullmatch(r"\d+", "123") is not None)
+    return out
+
+
+def case_local_imports():
+    import re as _re
+    from itertools import chain as _chain
+    import collections
+    m = _re.compile(r"(a+)(b*)").fullmatch("aab")
+    return [m.groups(), list(_chain([1], [2])), sorted(collections.Counter("aab").items())]
+
+
+def case_dict_views():
+    import copy
+    d = {"a": 1, "b": 2}
+    ks, vs, its = d.keys(), d.values(), d.items()
+    out = [list(ks), list(vs), list(its), len(ks), "a" in ks, 2 in vs, ("a", 1) in its, ("a", 2) in its, sorted(ks), bool(ks), bool({}.keys())]
+    d["c"] = 3                      # views are live
+    out.append((list(ks), len(vs), list(its)[-1]))
+    out.append(sorted(ks & {"a", "z"}))
+    out.append(sorted(ks | {"z"}))
+    out.append(sorted(ks - {"a"}))
+    out.append(ks == {"a", "b", "c"})
+    out.append(ks == ["a", "b", "c"])
+    out.append(ks == {"a": 0, "b": 0, "c": 0}.keys())
+    out.append(ks.isdisjoint(["q"]))
+    for f in (copy.copy, copy.deepcopy):
+        for v in (ks, vs, its):
+            try:
+                f(v)
+                out.append("copied")
+            except TypeError as e:
+                out.append(str(e))
+    try:
+        ks[0]
+    except TypeError as e:
+        out.append(str(e))
+    try:
+        ks.append("x")
+    except AttributeError as e:
+        out.append(str(e))
+    out.append(type(ks).__name__)
+    out.append(isinstance(ks, list))
+    out.append([k.upper() for k in ks])
+    out.append(", ".join(ks))
+    out.append(max(vs))
+    out.append(dict(its) == d)
+    out.append(set(ks) == {"a", "b", "c"})
+    out.append(tuple(vs))
+    return out
+
+
+import enum as _enum
+
+
+class _Step(_enum.Enum):
+    SKIP = _enum.auto()
+    TAKE = _enum.auto()
+    STOP = 10
+    NEXT = _enum.auto()
+
+
+class _Spelling(_enum.Flag):
+    NUMBER = _enum.auto()
+    SHORT = _enum.auto()
+    LONG = _enum.auto()
+
+
+class _Low(_enum.IntEnum):
+    A = _enum.auto()
+    B = _enum.auto()
+
+
+def case_enum_auto_and_flags():
+    out = [[(m.name, m.value) for m in _Step], _Step.NEXT.value, _Step(2) is _Step.TAKE, _Low.B + 1, _Low.A < _Low.B]
+    s = _Spelling(0)
+    out.append(bool(s))
+    s |= _Spelling.LONG
+    out.append((bool(s), s is _Spelling.LONG, s == _Spelling.LONG, s.value))
+    s |= _Spelling.SHORT
+    out.append((s.value, bool(s & _Spelling.NUMBER), bool(s & _Spelling.SHORT), (s & _Spelling.SHORT) is _Spelling.SHORT, _Spelling.SHORT in s, _Spelling.NUMBER in s))
+    out.append((_Spelling.SHORT | _Spelling.LONG) is (_Spelling.LONG | _Spelling.SHORT))
+    out.append([bool(k & s) for k in (_Spelling.NUMBER, _Spelling.SHORT, _Spelling.LONG)])
+    table = {_Step.SKIP: "skip", _Step.TAKE: "take"}
+    out.append(table[_Step.SKIP] + table.get(_Step.STOP, "?"))
+    try:
+        _Step(99)
+    except ValueError as e:
+        out.append(str(e))
+    return out
+
+
+def _ro(attribute, doc):
+    def getter(self):
+        return getattr(self, attribute)
+    return property(getter, doc=doc)
+
+
+def _rw(attribute, doc):
+    def getter(self):
+        return getattr(self, attribute)
+
+    def setter(self, value):
+        setattr(self, attribute, value)
+    return property(getter, setter, doc=doc)
+
+
+class _Boxed:
+    line = _ro("_line", "the line")
+    key = _rw("_key", "the key")
+
+    def __init__(self, line, key):
+        self._line = line
+        self._key = key
+
+
+class _Boxed2(_Boxed):
+    value = _rw("_value", "the value")
+
+
+def case_property_factories():
+    b = _Boxed2(3, "k")
+    out = [b.line, b.key]
+    b.key = "other"
+    b.value = 7
+    out += [b.key, b._key, b.value, sorted(vars(b))]
+    try:
+        b.line = 4
+    except AttributeError as e:
+        out.append("no setter")
+    return out
+
+
+def case_del_slices():
+    a = list(range(10))
+    del a[7:]
+    b = list(range(10))
+    del b[:3]
+    c = list(range(10))
+    del c[2:8:2]
+    d = list(range(5))
+    del d[1:1]
+    e = list(range(5))
+    del e[-2:]
+    return [a, b, c, d, e]
